@@ -171,7 +171,7 @@ M("C07", "km-to-m-positions-only", SGP4, "        result = [x * 1000 for x in p 
 M("C07", "gravity-model-lib", SGP4, "from sgp4.earth_gravity import wgs72\n", "from sgp4.earth_gravity import wgs84 as wgs72\n", "R07.1")
 
 # ---- C08
-M("C08", "kepler-returns-snapshot-view", KEP, '        return new.copy(form="cartesian")', '        new.form = "cartesian"\n        return new', None)
+M("C08", "kepler-writes-snapshot", KEP, "        new = self.orbit.copy()\n", "        new = self.orbit\n", "D3")
 M("C08", "none-no-copy", "beyond/propagators/none.py", "        orb = self.orbit.copy()\n", "        orb = self.orbit\n", None)
 M("C08", "ephem-exclusive-stop", EPH, "                while date <= stop:", "                while date < stop:", "R08.1")
 M("C08", "frontend-sign", BASE, "            if start > kwargs[\"stop\"] and step.total_seconds() > 0:\n                kwargs[\"step\"] = -step\n\n        listeners", "            if start > kwargs[\"stop\"] and step.total_seconds() > 0:\n                pass\n\n        listeners", "R08.2")
@@ -282,11 +282,11 @@ M("C18", "jpl-days", JPL, "            pv = np.concatenate((pos, vel / S_PER_DAY
 M("C18", "jpl-utc", JPL, '        date = date.change_scale("TDB")\n\n        if (self.obj.index', '        date = date.change_scale("TT")\n\n        if (self.obj.index', None)
 
 # ---- C19
-M("C19", "lambert-polarity", LAM, "            if abs(ratio) < tol:", "            if abs(ratio) > tol:", "R19.1")
+M("C19", "lambert-polarity", LAM, "        if abs(ratio) < tol:", "        if abs(ratio) > tol:", "R19.1")
 M("C19", "stumpff", LAM, "        s = (np.sqrt(z) - np.sin(np.sqrt(z))) / (np.sqrt(z)) ** 3", "        s = (np.sqrt(z) - np.sin(np.sqrt(z))) / (np.sqrt(z)) ** 2", "R19.1")
 M("C19", "ltan-modulus", LTAN, "    return (43200 + (raan - sun_raan) * 43200 / np.pi) % 86400", "    return (43200 + (raan - sun_raan) * 86400 / np.pi) % 86400", "R19.2")
 M("C19", "sso-arm", LEO, "        return (-3 / 2 * cst * np.cos(i) / (ω_e * (1 - e ** 2) ** 2)) ** (2 / 7)", "        return (-3 / 2 * cst * np.cos(i) / (ω_e * (1 - e ** 2))) ** (2 / 7)", "R19.2")
 M("C19", "walker-phasing", CONS, "            + self.spacing * (self.raan(i_plane) - self.raan0) / self.per_plane\n        )\n", "            + self.spacing * (self.raan(i_plane) - self.raan0) / self.planes\n        )\n", "R19.2")
 M("C19", "walker-star-spacing", CONS, "        return np.pi / self.planes * i_plane + self.raan0", "        return 2 * np.pi / self.planes * i_plane + self.raan0", "R19.2")
 M("C19", "beta-cos", BETAU, "    return np.arcsin(w @ ref_pos / (np.linalg.norm(w) * np.linalg.norm(ref_pos)))", "    return np.arccos(w @ ref_pos / (np.linalg.norm(w) * np.linalg.norm(ref_pos)))", "R19.3")
-M("C19", "bplane-R", INTER, "    R = np.cross(S, T)", "    R = np.cross(T, S)", "R19.3")
+M("C19", "bplane-R", INTER, "    R = np.cross(S, T)\n\n    B_norm", "    R = np.cross(T, S)\n\n    B_norm", "R19.3")
